@@ -558,6 +558,42 @@ def real_dataset_checks(tier):
                 V(f'real:{conv}:equivalent-spellings', 'a change of the name of a geometry variable changes the cache key', 'precomposed vs decomposed spelling')
         except Exception as e:
             notes.append(f'{conv}: unicode names not applicable ({type(e).__name__}: {str(e)[:80]})')
+    # long names: every character counts (names of 300 and 1,000 characters that differ in their last one)
+    for conv in ('cf1d', 'ugrid'):
+        ds = _dataset(conv)
+        g = list(ds.copy().ems.get_all_geometry_names())[0] if conv != 'ugrid' else 'node_x'
+        for length in (257, 300, 1000):
+            stem = (str(g) + '_' + 'x' * length)[:length - 1]
+            try:
+                pair = []
+                for last in ('a', 'b'):
+                    d = ds.rename({g: stem + last})
+                    for v in d.variables.values():
+                        for k_, val in list(v.attrs.items()):
+                            if isinstance(val, str) and str(g) in val.split():
+                                v.attrs[k_] = ' '.join(stem + last if w == str(g) else w for w in val.split())
+                    pair.append(key_of(d))
+                if pair[0] == pair[1]:
+                    V(f'real:{conv}:long-names', 'a change of the name of a geometry variable changes the cache key', f'names of {length} characters that differ in the last one')
+            except Exception as e:
+                notes.append(f'{conv}: long names not applicable ({type(e).__name__}: {str(e)[:80]})')
+    # a declared edge dimension that only the face-edge table uses, fill values of every size: the table is geometry
+    for mesh, fills in (('qqq', (9, 10, 11, 12, 99)), ('grid4', (41, 60, 63, 64, 99, 999))):
+        for fv in fills:
+            try:
+                dm = builders.ugrid(mesh, supply=('face_edge',), fill='nan', fill_value=fv, with_edges=True, edge_marker=False)
+                names_m = set(dm.copy().ems.get_all_geometry_names())
+                ne = len(builders.mesh_edges(builders.MESHES[mesh][1])[0])
+                if fv > ne and 'face_edge' not in names_m:
+                    V('real:ugrid:face-edge-fill', 'every supplied connectivity table is a geometry variable', f'{mesh}: {ne} edges, fill value {fv}')
+                    continue
+                if 'face_edge' in names_m:
+                    ed = dm.copy(deep=True)
+                    ed['face_edge'].attrs['comment'] = 'edited'
+                    if key_of(ed) == key_of(dm):
+                        V('real:ugrid:face-edge-fill', 'a single edit of a geometry variable changes the cache key', f'{mesh}: fill value {fv}')
+            except Exception as e:
+                notes.append(f'ugrid {mesh} fill {fv}: not applicable ({type(e).__name__}: {str(e)[:60]})')
     # a mesh whose tables are stored (nodes per face, faces): every optional table is still part of the key
     tmesh = builders.ugrid('tqp', supply=('edge_node', 'face_edge', 'face_face'), fill='nan', transposed=True)
     names_t = set(tmesh.copy().ems.get_all_geometry_names())
